@@ -117,8 +117,37 @@ def main():
             fd.elements.data = conn
         elif op == 'remove_useless_nodes':
             fd.remove_useless_nodes()
+        elif op == 'make_elements_positive':      # twice
+            fd.make_elements_positive()
+            fd.make_elements_positive()
+        elif op == 'update_NODE':                 # update_data(..., allow_overwrite=True) on existing ids
+            new = np.array([st['by_id'][str(int(i))] for i in fd.nodes.ids], dtype=float)
+            fd.nodal_data.update_data(fd.nodes.ids, {'NODE': new}, allow_overwrite=True)
         else:
             raise ValueError(op)
+
+    def other_call(fd, name, mode):
+        """other public queries interleaved with the operator builds"""
+        n = len(fd.nodes.ids)
+        table = {
+            'volumes': lambda: fd.calculate_element_volumes(),
+            'metrics': lambda: fd.calculate_element_metrics(),
+            'adj_node': lambda: fd.calculate_adjacency_matrix_node(),
+            'adj_elem': lambda: fd.calculate_adjacency_matrix_element(),
+            'n_hop_self': lambda: fd.calculate_n_hop_adj(mode=mode, n_hop=2, include_self_loop=True),
+            'incidence': lambda: fd.calculate_incidence_matrix(),
+            'grad_incidence': lambda: fd.calculate_spatial_gradient_incidence_matrix(
+                mode='nodal', moment_matrix=True),
+            'n2e': lambda: fd.convert_nodal2elemental('NODE', calc_average=True),
+            'e2n': lambda: fd.convert_elemental2nodal(fd.calculate_element_volumes()),
+            'laplacian': lambda: fd.calculate_laplacian_matrix(mode=mode),
+            'edge_gradient': lambda: fd.calculate_edge_gradient_matrix(mode=mode),
+            'surface_normals': lambda: fd.calculate_surface_normals(),
+            # an exception in the middle of an operator build, followed by further builds
+            'bad_kernel': lambda: fd.calculate_nodal_spatial_gradients(
+                np.ones((n, 1)), kernel='no-such-kernel', moment_matrix=True),
+        }
+        table[name]()
 
     results = []
     for job in spec['jobs']:
@@ -133,10 +162,19 @@ def main():
                     res['elem_ids'] = [int(x) for x in fd.elements.ids]
                 elif job['kind'] == 'sequence':
                     res['steps'] = []
+                    fds = [fd]
+                    if job.get('mesh2'):
+                        fds.append(build(spec['meshes'][job['mesh2']]))   # a second live object
                     for st in job['steps']:
                         r = {}
+                        fd = fds[st.get('obj', 0)]
                         try:
-                            if st['kind'] == 'modify':
+                            if st['kind'] == 'call':
+                                try:
+                                    other_call(fd, st['name'], st.get('mode', 'nodal'))
+                                except Exception as e:      # recorded, not judged
+                                    r['call_error'] = type(e).__name__
+                            elif st['kind'] == 'modify':
                                 modify(fd, st)
                                 r['snapshot'] = snapshot(fd)
                             else:
